@@ -67,7 +67,9 @@ func (f *flatten) Iterate(ctx context.Context, onFields OnFields, onRow OnFlatRo
 			anyNonConstantValueFound := false
 			for i, field := range fields {
 				val, found := vals[i].ValueAtTime(ts, field.Expr, resolution)
-				if found && !field.Expr.IsConstant() {
+				// the synthetic HAVING column compares with a literal and therefore has a
+				// value in every period; it must not make an empty period count as a row
+				if found && !field.Expr.IsConstant() && field.Name != HavingFieldName {
 					anyNonConstantValueFound = true
 				}
 				row.Values[i] = val
